@@ -77,6 +77,10 @@ var c16Recorders = map[string]func(t *testing.T, rec *ev.Rec, u c16Universe, ste
 			}
 		}
 		r.run(steps - steps/2)
+		// one block fills auctions of two limit-bid books (two collateral denoms, one debt asset) at the same discount
+		if r.twoFills([]string{"uatom", "ucmdx"}, func(dt time.Duration) { r.block(dt) }) {
+			rec.Count("cdp_tape_blocks_filling_two_limit_bid_books", 1)
+		}
 		r.esmPhase(cu.cdpApps[u.Variant%len(cu.cdpApps)])
 		// make sure the tape ends on a block boundary so that the last app hash covers everything
 		r.block(6 * time.Second)
